@@ -39,7 +39,7 @@ ASSUMPTIONS = [
     "lines the reported number is N+1 (the line that could not be read); stated as lineno = #next - #back",
 ]
 TIME_LIMIT = {"quick": 900, "thorough": 5400}
-PER_LOAD_LIMIT = 120
+PER_LOAD_LIMIT = 60
 
 EXCS = [e for e in fl.EXC_NAMES if e != "GeneratorExit"]
 
@@ -132,6 +132,19 @@ def _alarm(signum, frame):
     raise _Timeout()
 
 
+def _sig(line):
+    """token-type signature of a line (alphabetic / numeric tokens), used to find section boundaries"""
+    return tuple("a" if any(ch.isalpha() for ch in t) and not _is_num(t) else "n" for t in line.split()[:6])
+
+
+def _is_num(t):
+    try:
+        float(t.replace("D", "E").replace("d", "e"))
+        return True
+    except ValueError:
+        return False
+
+
 def _mutate(lines, kind, a, b, c):
     """Deterministic mutation of a list of lines; (a, b, c) are integers drawn by the parent."""
     n = len(lines)
@@ -172,6 +185,33 @@ def _mutate(lines, kind, a, b, c):
                 out[k] = f"{m.group(1)}{int(m.group(2)) * (2 + c % 50) + 1}{m.group(3)}"
                 if b % 2:
                     break
+    elif kind == "count-zero":
+        # set one count-like integer (after "N=", or a line holding a single integer, or the first integer of one of
+        # the first 60 lines) to 0 / 1: per-atom blocks then disagree in length
+        import re
+
+        cands = []
+        for k in range(n):
+            m = re.search(r"N=\s*(\d+)\s*$", out[k])
+            if m:
+                cands.append((k, m.start(1), m.end(1)))
+                continue
+            m = re.fullmatch(r"\s*(\d+)\s*", out[k])
+            if m:
+                cands.append((k, m.start(1), m.end(1)))
+            elif k < 60:
+                m = re.search(r"(?<![\w.])(\d+)(?![\w.])", out[k])
+                if m:
+                    cands.append((k, m.start(1), m.end(1)))
+        if cands:
+            k, s0, s1 = cands[a % len(cands)]
+            out[k] = out[k][:s0] + ["0", "1", "2"][c % 3].rjust(s1 - s0) + out[k][s1:]
+    elif kind == "del-section":
+        # delete the body of a section: the lines between two header-like lines
+        heads = [k for k in range(n) if _sig(out[k]) and _sig(out[k])[0] == "a" and (k + 1 < n and _sig(out[k + 1]) != _sig(out[k]))]
+        if len(heads) >= 2:
+            h = a % (len(heads) - 1)
+            del out[heads[h] + 1: heads[h + 1]]
     elif kind == "empty":
         return []
     elif kind == "binary":
@@ -319,14 +359,23 @@ def _tasks(ctx):
     rng = ctx.rng
     files = _corpus(ctx)
     tasks = []
-    kinds = ["delete", "dup", "swap", "subst", "subst", "overflow", "overflow", "inflate", "trunc-byte"]
-    per_file = ctx.n(14, 60) * (3 if ctx.escalated else 1)
+    kinds = ["delete", "dup", "swap", "subst", "subst", "overflow", "overflow", "inflate", "trunc-byte",
+             "count-zero", "count-zero", "del-section"]
+    per_file = ctx.n(36, 150) * (3 if ctx.escalated else 1)
     for fname, fmt, many, size in files:
         nl = sum(1 for _ in open(REPO / "iodata" / "test" / "data" / fname, errors="replace"))
         cap = per_file // 2 if fmt in SLOW_FORMATS else per_file
         cuts = list(range(nl + 1))
         if len(cuts) > cap:
-            cuts = sorted(rng.sample(cuts, cap))
+            flines = open(REPO / "iodata" / "test" / "data" / fname, errors="replace").read().splitlines()
+            # cut points right after a line whose shape differs from the next one (section headers, counts, ends of
+            # blocks) are where skip-until loops and look-ahead/push-back logic can go wrong: take those first
+            bound = [i for i in range(1, nl) if i < len(flines) and _sig(flines[i - 1]) != _sig(flines[i])]
+            nb = min(len(bound), cap if ctx.thorough and fmt not in SLOW_FORMATS else (2 * cap) // 3)
+            chosen = set(rng.sample(bound, nb)) if nb else set()
+            rest = [c for c in cuts if c not in chosen]
+            chosen |= set(rng.sample(rest, min(len(rest), max(cap - len(chosen), cap // 3))))
+            cuts = sorted(chosen)
         base = [("trunc", c, 0, 0) for c in cuts] + [("empty", 0, 0, 0), ("binary", 0, 0, 0)]
         base += [(rng.choice(kinds), rng.randrange(10**6), rng.randrange(10**6), rng.randrange(10**6)) for _ in range(cap)]
         for kind, a, b, c in base:
@@ -362,10 +411,30 @@ def search(ctx):
     ctx.extra_cov["corpus_files"] = len({t[0] for t in tasks})
     ctx.extra_cov["parser_part_is_exploration_not_proof"] = True
     if slow:
-        raise InfraError(f"{len(slow)} loads exceeded the per-load limit of {PER_LOAD_LIMIT}s, first: {slow[0]}")
+        # Is it the parser that does not terminate, or the intact file that is slow to load?  Load the intact file
+        # (mutation "none") under the same limit and compare.
+        unresolved = []
+        for t in slow[:6]:
+            t0 = time.time()
+            r0 = _worker((t[0], t[1], "none", 0, 0, 0, t[6]))
+            dt = time.time() - t0
+            if r0["verdict"] != "timeout" and PER_LOAD_LIMIT > 20 * dt + 10:
+                from iodata import api
+
+                fmt = api._select_format_module(t[0], "load_one").__name__.split(".")[-1]
+                ctx.fail(f"does-not-terminate:{fmt}.{'load_many' if t[1] else 'load_one'}",
+                         f"{t[0]} ({t[2]}) did not finish loading within {PER_LOAD_LIMIT}s although the intact file loads "
+                         f"in {dt:.2f}s: the parser does not terminate on this content", {"kind": "load", "task": list(t)})
+            else:
+                unresolved.append(t)
+        if unresolved:
+            raise InfraError(f"{len(unresolved)} loads exceeded the per-load limit of {PER_LOAD_LIMIT}s and so does / nearly "
+                             f"does the intact file, first: {unresolved[0]}")
 
 
 def replay(ctx, obj):
     inp = obj["input"]
     r = _worker(tuple(inp["task"]))
-    return r["verdict"] not in ("object", "LoadError", "FileFormatError", "skip-binary", "timeout")
+    if r["verdict"] == "timeout":
+        return str(obj.get("signature", "")).startswith("does-not-terminate")
+    return r["verdict"] not in ("object", "LoadError", "FileFormatError", "skip-binary")
